@@ -7,10 +7,10 @@ V = os.path.dirname(os.path.dirname(os.path.abspath(__file__)))
 
 def build(repo, outdir, contracts=True):
     ex = extract_parser.extract(repo)
-    prelude = open(os.path.join(V, 'contracts/parser_prelude.rs')).read()
+    prelude = open(os.path.join(V, 'contracts/parser_prelude.rs')).read() + open(os.path.join(V, 'contracts/parser_prelude_bt.rs')).read()
     stubs = open(os.path.join(V, 'contracts/parser_stubs.rs')).read()
     fns, loops = weave.parse_spec(open(os.path.join(V, 'contracts/parser.spec')).read()) if contracts else ({}, {})
-    top = open(os.path.join(V, 'contracts/parser_top.rs')).read() if contracts else None
+    top = (open(os.path.join(V, 'contracts/parser_top.rs')).read() + open(os.path.join(V, 'contracts/parser_top_bt.rs')).read()) if contracts else None
     text, linemap, info = weave.assemble(ex, prelude, fns, loops, stubs, top)
     os.makedirs(outdir, exist_ok=True)
     open(os.path.join(outdir, 'unit.rs'), 'w').write(text)
